@@ -3,7 +3,7 @@
    produces items; [emit] renders them as the bytes the compact encoder writes.
    The indented encoder writes the same items with whitespace between them.
    Executable transcriptions; NO proofs in this file. *)
-From Mxj Require Export Model.XmlDec.
+From Mxj Require Export Base.Fmt Model.XmlDec.
 
 Inductive item :=
 | IOpen (name : str) (attrs : list (str * str))     (* <name a="v" ...>      *)
@@ -22,25 +22,7 @@ Definition emit1 (i : item) : str :=
   end.
 Definition emit (its : list item) : str := flat_map emit1 its.
 
-(* ---------------- fmt.Sprintf("%v", scalar) ---------------- *)
-Fixpoint ntoa_aux (fuel : nat) (n : N) (acc : str) : str :=
-  match fuel with
-  | O => acc
-  | S f => let acc' := ascii_of_N (48 + N.modulo n 10) :: acc in
-           if (n <? 10)%N then acc' else ntoa_aux f (N.div n 10) acc'
-  end.
-Definition ztoa (z : Z) : str :=
-  if (z <? 0)%Z then "-"%char :: ntoa_aux 40 (Z.to_N (- z)) [] else ntoa_aux 40 (Z.to_N z) [].
-Definition fmt_v (v : value) : str :=
-  match v with
-  | VStr x => x
-  | VBool true => s "true" | VBool false => s "false"
-  | VNil => s "<nil>"
-  | VInt z | VI64 z | VU64 z => ztoa z
-  | VFlt f => f
-  | VJNum x => x
-  | _ => s "?"                                      (* containers: outside the model *)
-  end.
+(* ---------------- fmt.Sprintf("%v", scalar): Base/Fmt.v (ntoa_aux, ztoa, fmt_v) ---------------- *)
 
 (* insertion sort by key, ascending bytewise (sort.Sort with Less = "<=" on distinct keys) *)
 Fixpoint insert_by_key {A} (kv : str * A) (l : list (str * A)) : list (str * A) :=
